@@ -2,6 +2,7 @@
 // Oracle: modular arithmetic on the residues of the 64-bit lanes; negacyclic convolution modulo
 // each prime; Horner evaluation at the roots read off the transform of X.
 #include "q120h.h"
+#include "ops.h"
 
 // tables for every n = 2^k, k = 0..16; created in a deliberate order (large sizes first, then small
 // ones, then a second set in the opposite order) so that tables of different sizes are alive together
@@ -464,4 +465,7 @@ void run_C03(void) {
     }
   }
   free_tables();
+  // modules / tables created, used and destroyed in random order, several alive at once
+  for (unsigned rep = 0; rep < (G.thorough ? 240u : 24u); rep++)
+    ops_lifecycle_case("C03 objects", LKM_MOD_NTT120 | LKM_MOD_FFT64 | LKM_NTT | LKM_INTT, (rep % 4) == 3 ? DISP_GENERIC : DISP_NATIVE, 160, 0, rep, "lifecycle_uses");
 }
